@@ -1,0 +1,25 @@
+//go:build verif
+
+package mp4
+
+// Verification hooks for property C07 (add-only, compiled only with -tags verif):
+// re-export the unexported IV increment and cbcs pattern crypt functions of crypto.go.
+
+// VerifC07IncrementIV calls incrementIV.
+func VerifC07IncrementIV(inIV []byte, subsamplePatterns []SubSamplePattern, sampleLen int) []byte {
+	return incrementIV(inIV, subsamplePatterns, sampleLen)
+}
+
+// VerifC07IncrementIVInPlace calls incrementIVInPlace.
+func VerifC07IncrementIVInPlace(iv []byte, nrSteps int) {
+	incrementIVInPlace(iv, nrSteps)
+}
+
+// VerifC07CbcsCrypt calls cbcsCrypt (dec selects the decryption direction).
+func VerifC07CbcsCrypt(dec bool, data, key, iv []byte, nrInCryptBlock, nrInSkipBlock int) error {
+	dir := dirEnc
+	if dec {
+		dir = dirDec
+	}
+	return cbcsCrypt(dir, data, key, iv, nrInCryptBlock, nrInSkipBlock)
+}
